@@ -58,6 +58,8 @@ def run_check(pid, tier, seed, t0):
     prop = importlib.import_module("props." + pid)
     reg = contracts.load_all()
     modes = getattr(prop, "MODES", ["gregorian", "360day", "365day", "366day"])
+    if tier == "quick" and getattr(prop, "QUICK_MODES", None):
+        modes = prop.QUICK_MODES
     tasks = []
     for key in prop.FUNCS:
         only = None
